@@ -86,6 +86,11 @@ def run(tier):
         L0 = len(prog[0][1]) // 2
         start = max(0, rnd.choice([1, 1, 2]) * c - rnd.randrange(0, L0 + 3))
         add(c, start, [p[0] for p in prog], [p[1] for p in prog], [], "random", internal=(k % 4 != 3))
+    # chunk sizes that do not fit 32 bits (the parameter is a size_t): no boundary lies inside any buffer, the output is the plain code
+    for c in (2**32, 2**32 + 1, 2**32 + 16, 2**32 + 32, 3 * 2**32 + 20, 2**40 + 8, 2**63, 2**64 - 1, 2**31, 2**31 + 8):
+        for k in range(6):
+            prog = [rnd.choice(allc) for _ in range(rnd.randrange(2, 30))]
+            add(c, rnd.choice([0, 3, 31]), [p[0] for p in prog], [p[1] for p in prog], [], "random")
     # chunk sizes below 2 disable fitting: output must be the plain code
     for c in (0, 1):
         for k in range(40):
